@@ -9,15 +9,21 @@ Accepted shapes (everything else is refused):
         |  #[cfg(feature = "debug")] STMT               (skipped: the harness and the pinned build do not
                                                          enable that feature; any other attribute is refused)
         |  if COND { STMT* } else { STMT* }             (COND decided by the caller-supplied `decide`)
-  S    :=  web::scope("PREFIX").service(S)...
-        |  web::resource("PATTERN").route(R)...
-        |  IDENT                                        (a handler fn carrying #[actix_web::get("PATTERN")]
+        |  let NAME = S;   /  let NAME = NAME.service(S)...;   (a local binding, later used as a service)
+  S    :=  web::scope("PREFIX").service(S)...           (also the bare `scope(..)`)
+        |  web::resource("PATTERN").route(R)...         (PATTERN: a literal or a string constant of
+                                                         src/openapi/constant.rs)
+        |  IDENT                                        (a local binding, or a handler fn carrying
+                                                         #[actix_web::get("PATTERN")] / #[get("PATTERN")],
                                                          or post/put/delete/patch/head)
   R    :=  web::get().to(H) | web::post().to(H) | web::put().to(H) | web::delete().to(H)
         |  web::patch().to(H) | web::head().to(H)
   H    :=  a path (handler function)
 
-Patterns: static text, optionally ending in one tail segment `{name:.*}`; other dynamic segments are refused.
+Patterns: literal text with single dynamic segments `{name}` (each between '/' and '/' or the end) and
+optionally one tail segment `{name:.*}` at the end; other dynamic segments (custom regexes) are refused.
+Inside a scope a resource pattern without leading '/' gets one (actix does the same), the empty pattern
+stays empty (it matches the scope prefix itself).
 Result: ordered list of services
     ("scope", prefix, [("resource", pattern, [(METHOD, handler)]) ...])
     ("resource", pattern, [(METHOD, handler)])
@@ -31,7 +37,7 @@ METHODS = {"get": "GET", "post": "POST", "put": "PUT", "delete": "DELETE", "patc
 
 
 class RouteReader:
-    def __init__(self, files, decide=None, skip_cfg_features=("debug",)):
+    def __init__(self, files, decide=None, skip_cfg_features=("debug",), consts=None):
         """files: list of rustparse.File ; decide(cond_text) -> True/False for `if` conditions"""
         self.files = files
         self.fns = {}
@@ -41,6 +47,8 @@ class RouteReader:
                     d["file"] = f
                     self.fns.setdefault(name, []).append(d)
         self.decide = decide
+        self.consts = consts or {}
+        self.locals = {}
         self.skip_cfg_features = skip_cfg_features
         self.visited = []          # configuration functions interpreted, in order
         self.skipped = []          # statements skipped because of #[cfg(feature = ..)]
@@ -56,12 +64,16 @@ class RouteReader:
     def check_pattern(p, where):
         if not p.startswith("/") and p != "":
             raise Refuse("%s: pattern %r does not start with '/'" % (where, p))
-        m = re.fullmatch(r"([^{}]*)(\{[A-Za-z_][A-Za-z_0-9]*:\.\*\})?", p)
-        if not m:
-            raise Refuse("%s: pattern %r has a dynamic segment other than a trailing {name:.*}" % (where, p))
-        if m.group(2) and not m.group(1).endswith("/"):
-            raise Refuse("%s: pattern %r: tail segment must follow a '/'" % (where, p))
+        parse_pattern(p, where)
         return p
+
+    def str_arg(self, e, where):
+        """a string literal or a known string constant"""
+        if e[0] == "str":
+            return e[1]
+        if e[0] == "path" and len(e[1]) == 1 and e[1][0] in self.consts:
+            return self.consts[e[1][0]]
+        raise Refuse("%s: expected a string literal or a known string constant, found %s" % (where, show(e)))
 
     def handler_text(self, e, where):
         if e[0] != "path":
@@ -82,14 +94,18 @@ class RouteReader:
         d = self.fn_unique(name, where)
         for a in d["attrs"]:
             txt = [t.v for t in a]
-            if len(a) >= 6 and txt[0] == "actix_web" and txt[1] == "::" and txt[2] in METHODS and txt[3] == "(" \
-                    and a[4].k == "str" and txt[5] == ")" and len(a) == 6:
+            if len(a) == 6 and txt[0] == "actix_web" and txt[1] == "::" and txt[2] in METHODS and txt[3] == "(" \
+                    and a[4].k == "str" and txt[5] == ")":
                 return ("guarded", self.check_pattern(a[4].v, where), [(METHODS[txt[2]], name)])
+            if len(a) == 4 and txt[0] in METHODS and txt[1] == "(" and a[2].k == "str" and txt[3] == ")":
+                return ("guarded", self.check_pattern(a[2].v, where), [(METHODS[txt[0]], name)])
         raise Refuse("%s: %s is registered as a service but has no #[actix_web::<method>(\"..\")] attribute" % (where, name))
 
-    def service(self, e, where):
+    def service(self, e, where, in_scope=False):
         """S -> service tuple"""
         if e[0] == "path" and len(e[1]) == 1:
+            if e[1][0] in self.locals:
+                return self.locals[e[1][0]]
             return self.attr_route(e[1][0], where)
         # unwind the method chain
         chain = []
@@ -98,21 +114,31 @@ class RouteReader:
             chain.append((cur[2], cur[3]))
             cur = cur[1]
         chain.reverse()
-        if cur[0] == "call" and cur[1][0] == "path" and cur[1][1] == ["web", "scope"] and len(cur[2]) == 1 and cur[2][0][0] == "str":
-            prefix = cur[2][0][1]
+        if cur[0] == "path" and len(cur[1]) == 1 and cur[1][0] in self.locals and self.locals[cur[1][0]][0] == "scope":
+            base = self.locals[cur[1][0]]
+            kids = list(base[2])
+            for name, args in chain:
+                if name != "service" or len(args) != 1:
+                    raise Refuse("%s: scope(%r): unsupported call .%s(..)" % (where, base[1], name))
+                kids.append(self.scope_child(args[0], where, base[1]))
+            return ("scope", base[1], kids)
+        if cur[0] == "call" and cur[1][0] == "path" and cur[1][1] in (["web", "scope"], ["scope"]) and len(cur[2]) == 1:
+            prefix = self.str_arg(cur[2][0], where)
             if not prefix.startswith("/") or prefix.endswith("/") or "{" in prefix:
                 raise Refuse("%s: scope prefix %r not of the form /a/b" % (where, prefix))
             kids = []
             for name, args in chain:
                 if name != "service" or len(args) != 1:
                     raise Refuse("%s: scope(%r): unsupported call .%s(..)" % (where, prefix, name))
-                k = self.service(args[0], where)
-                if k[0] != "resource":
-                    raise Refuse("%s: only web::resource(..) services are supported inside a scope (scope %r)" % (where, prefix))
-                kids.append(k)
+                kids.append(self.scope_child(args[0], where, prefix))
             return ("scope", prefix, kids)
-        if cur[0] == "call" and cur[1][0] == "path" and cur[1][1] == ["web", "resource"] and len(cur[2]) == 1 and cur[2][0][0] == "str":
-            pat = self.check_pattern(cur[2][0][1], where)
+        if cur[0] == "call" and cur[1][0] == "path" and cur[1][1] == ["web", "resource"] and len(cur[2]) == 1:
+            pat = self.str_arg(cur[2][0], where)
+            if in_scope and pat != "" and not pat.startswith("/"):
+                pat = "/" + pat          # actix: ensure_leading_slash for non-empty patterns
+            if not in_scope and pat == "":
+                raise Refuse("%s: empty resource pattern outside a scope" % where)
+            pat = self.check_pattern(pat, where)
             routes = []
             for name, args in chain:
                 if name != "route" or len(args) != 1:
@@ -122,6 +148,14 @@ class RouteReader:
                 raise Refuse("%s: resource(%r) without routes" % (where, pat))
             return ("resource", pat, routes)
         raise Refuse("%s: service of unknown shape: %s" % (where, show(e)[:200]))
+
+    def scope_child(self, e, where, prefix):
+        k = self.service(e, where, in_scope=True)
+        if k[0] not in ("resource", "guarded"):
+            raise Refuse("%s: only resources are supported inside a scope (scope %r)" % (where, prefix))
+        if k[0] == "guarded" and not k[1].startswith("/"):
+            raise Refuse("%s: attribute route %r inside scope %r must start with '/'" % (where, k[1], prefix))
+        return k
 
     # ---- statements -------------------------------------------------------------------
     def stmts(self, toks, where, cfgvar, out):
@@ -150,6 +184,12 @@ class RouteReader:
             return
         toks = st[1]
         if not toks:
+            return
+        if toks[0].k == "id" and toks[0].v == "let":
+            # let NAME = S;
+            if not (len(toks) > 3 and toks[1].k == "id" and toks[2].k == "p" and toks[2].v == "="):
+                raise Refuse("%s: unsupported let statement" % where)
+            self.locals[toks[1].v] = self.service(parse_expr(toks[3:], where), where)
             return
         e = parse_expr(toks, where)
         # OTHER_FN(config)
@@ -209,13 +249,48 @@ def flatten(services):
     return out
 
 
+_ELEM = re.compile(r"\{([A-Za-z_][A-Za-z_0-9]*)(:[^{}]*)?\}")
+
+
+def parse_pattern(p, where="?"):
+    """-> ("exact", text) | ("prefix", text) | ("segs", [("lit", text) | ("seg",) | ("tail",)])"""
+    if "{" not in p and "}" not in p:
+        return ("exact", p)
+    elems = []
+    pos = 0
+    for m in _ELEM.finditer(p):
+        if m.start() > pos:
+            elems.append(("lit", p[pos:m.start()]))
+        if m.group(2) is None:
+            # single segment: must sit between '/' and ('/' or the end)
+            if not (m.start() > 0 and p[m.start() - 1] == "/") or not (m.end() == len(p) or p[m.end()] == "/"):
+                raise Refuse("%s: pattern %r: dynamic segment must be a whole path segment" % (where, p))
+            elems.append(("seg",))
+        elif m.group(2) == ":.*":
+            if m.end() != len(p) or not (m.start() > 0 and p[m.start() - 1] == "/"):
+                raise Refuse("%s: pattern %r: a tail {x:.*} must be the last element and follow a '/'" % (where, p))
+            elems.append(("tail",))
+        else:
+            raise Refuse("%s: pattern %r: custom segment regex %r is not supported" % (where, p, m.group(2)))
+        pos = m.end()
+    if pos < len(p):
+        elems.append(("lit", p[pos:]))
+    if any("{" in e[1] or "}" in e[1] for e in elems if e[0] == "lit"):
+        raise Refuse("%s: pattern %r: unbalanced braces" % (where, p))
+    if len(elems) == 2 and elems[0][0] == "lit" and elems[1][0] == "tail":
+        return ("prefix", elems[0][1])
+    return ("segs", elems)
+
+
 def pattern_coq(p):
-    """static pattern -> PExact "p" ; trailing {x:.*} -> PPrefix "text before" """
     from rustparse import coq_str
-    m = re.fullmatch(r"([^{}]*)(\{[A-Za-z_][A-Za-z_0-9]*:\.\*\})?", p)
-    if m.group(2):
-        return "PPrefix %s" % coq_str(m.group(1))
-    return "PExact %s" % coq_str(p)
+    k = parse_pattern(p)
+    if k[0] == "exact":
+        return "PExact %s" % coq_str(k[1])
+    if k[0] == "prefix":
+        return "PPrefix %s" % coq_str(k[1])
+    return "PSegs [%s]" % "; ".join("PLit %s" % coq_str(e[1]) if e[0] == "lit" else ("PSeg" if e[0] == "seg" else "PTail")
+                                      for e in k[1])
 
 
 def services_coq(services):
@@ -223,13 +298,11 @@ def services_coq(services):
 
     def res(r, ind):
         routes = "; ".join("(%s, %s)" % (coq_str(m), coq_str(h)) for m, h in r[2])
-        return "%sRes (%s) [%s]" % (ind, pattern_coq(r[1]), routes)
+        return "%sRes %s (%s) [%s]" % (ind, "true" if r[0] == "guarded" else "false", pattern_coq(r[1]), routes)
     items = []
     for s in services:
-        if s[0] == "resource":
+        if s[0] in ("resource", "guarded"):
             items.append("  SRes (" + res(s, "").strip() + ")")
-        elif s[0] == "guarded":
-            items.append("  SGuarded (" + res(s, "").strip() + ")")
         else:
             kids = ";\n".join(res(r, "      ") for r in s[2])
             items.append("  SScope %s [\n%s\n    ]" % (coq_str(s[1]), kids))
